@@ -31,7 +31,9 @@ pub fn install_link_hook() {
 }
 
 /// a command running on its own thread, parked inside a wait loop of start_election
-pub struct Co { pub resume: std::sync::mpsc::Sender<()>, pub events: std::sync::mpsc::Receiver<CoEv>, pub handle: Option<std::thread::JoinHandle<()>> }
+pub struct Co { pub resume: std::sync::mpsc::Sender<()>, pub events: std::sync::mpsc::Receiver<CoEv>, pub handle: Option<std::thread::JoinHandle<()>>,
+                /// what the command pushes to its connection while it runs (the stand-in client's channel) belongs to this session
+                pub pushed: Option<(usize, Receiver<String>)> }
 pub enum CoEv { Parked(String), Done(String) }
 
 thread_local! {
@@ -55,6 +57,13 @@ pub fn install_yield_hook() {
 }
 
 pub fn may_elect(cmd: &str, is_primary: bool) -> bool {
+    // a replicated command arrives as `rp <op id> <command>` (also nested): the handler runs the inner command in place
+    let mut cmd = cmd;
+    loop {
+        let mut p = cmd.splitn(3, ' ');
+        if p.next() == Some("rp") { if let (Some(_), Some(rest)) = (p.next(), p.next()) { cmd = rest; continue; } }
+        break;
+    }
     let mut w = cmd.split(' ');
     match w.next().unwrap_or("") {
         "join" | "leave" => true,
@@ -393,18 +402,25 @@ impl Node {
     /// wait for the next event of coroutine `id`: parked at a yield point, or finished
     fn co_wait(&mut self, id: usize) -> Vec<String> {
         let ev = self.cos.get(&id).and_then(|c| c.events.recv().ok());
+        // lines the command pushed to its connection so far
+        let mut ms = vec![];
+        if let Some(c) = self.cos.get_mut(&id) {
+            if let Some((sid, rx)) = c.pushed.as_mut() { for m in drain(rx) { ms.push(format!("M {} {}", sid, esc(&Self::canon_line(&m)))); } }
+        }
         match ev {
-            Some(CoEv::Parked(site)) => vec![format!("Y parked {} {}", id, site)],
+            Some(CoEv::Parked(site)) => { let mut v = vec![format!("Y parked {} {}", id, site)]; v.extend(ms); v }
             Some(CoEv::Done(resp)) => {
                 if let Some(mut c) = self.cos.remove(&id) { if let Some(h) = c.handle.take() { let _ = h.join(); } }
-                vec![format!("Y done {}", id), resp]
+                let mut v = vec![format!("Y done {}", id), resp]; v.extend(ms); v
             }
             None => { self.cos.remove(&id); vec![format!("Y done {}", id), "R PANIC coroutine died".to_string()] }
         }
     }
 
     /// run `f` (a command that may hold an election) on its own thread up to its first yield point
-    pub fn co_start(&mut self, f: Box<dyn FnOnce(Arc<Databases>) -> String + Send>) -> Vec<String> {
+    pub fn co_start(&mut self, f: Box<dyn FnOnce(Arc<Databases>) -> String + Send>) -> Vec<String> { self.co_start_on(f, None) }
+
+    pub fn co_start_on(&mut self, f: Box<dyn FnOnce(Arc<Databases>) -> String + Send>, pushed: Option<(usize, Receiver<String>)>) -> Vec<String> {
         let id = self.next_co; self.next_co += 1;
         let (etx, erx) = std::sync::mpsc::channel::<CoEv>();
         let (rtx, rrx) = std::sync::mpsc::channel::<()>();
@@ -417,7 +433,7 @@ impl Node {
             let resp = match r { Ok(s) => s, Err(_) => format!("R PANIC {}", LAST_PANIC.with(|p| p.borrow_mut().take()).unwrap_or_default()) };
             let _ = etx.send(CoEv::Done(resp));
         });
-        self.cos.insert(id, Co { resume: rtx, events: erx, handle: Some(handle) });
+        self.cos.insert(id, Co { resume: rtx, events: erx, handle: Some(handle), pushed });
         self.co_wait(id)
     }
 
@@ -514,12 +530,16 @@ impl World {
                     let sess = n.sessions.get(&sid).unwrap();
                     let auth = sess.client.is_admin_auth();
                     let member = { sess.client.cluster_member.lock().unwrap().as_ref().map(|m| (m.name.clone(), m.role)) };
-                    n.co_start(Box::new(move |dbs: Arc<Databases>| {
-                        let (mut c, _rx) = Client::new_empty_and_receiver();
-                        c.auth.store(auth, Ordering::Relaxed);
-                        if let Some((name, role)) = member { *c.cluster_member.lock().unwrap() = Some(ClusterMember { name, role, sender: None }); }
-                        Node::resp_str(&process_request(&cmdline, &dbs, &mut c))
-                    }))
+                    let (mut c, crx) = Client::new_empty_and_receiver();
+                    c.auth.store(auth, Ordering::Relaxed);
+                    if let Some((name, role)) = member { *c.cluster_member.lock().unwrap() = Some(ClusterMember { name, role, sender: None }); }
+                    struct SendClient(Client);
+                    unsafe impl Send for SendClient {}
+                    let boxed = SendClient(c);
+                    n.co_start_on(Box::new(move |dbs: Arc<Databases>| {
+                        let mut b = boxed;
+                        Node::resp_str(&process_request(&cmdline, &dbs, &mut b.0))
+                    }), Some((sid, crx)))
                 } else { vec![n.exec(sid, &cmdline)] };
                 out.extend(n.drain_all(None));
                 out.extend(n.dump_delta());
@@ -748,7 +768,8 @@ impl World {
                 }
             }
             "PUMP" => {
-                let mut out = n.pump();
+                // `PUMP sup`: the supervisor thread gets to its queue before the replication thread does (the two run concurrently)
+                let mut out = if a1 == "sup" && n.sup_fut.is_some() { let mut o = n.pump_sup(); o.extend(n.pump()); o } else { n.pump() };
                 if n.sup_fut.is_some() {
                     // loop and supervisor feed each other (election-win -> set-primary broadcast): run both until nothing moves
                     for _ in 0..8 {
